@@ -252,6 +252,30 @@ class Conduct(core.Scenario):
             self.flag('silence_wrong_outcome', 'disconnect events %r' % [(e[1], e[2]) for e in disc], trigger=trig)
         elif disc[0][2] > bound + 1e-9:
             self.flag('silence_detected_late', 'transport error at %.3f, bound %.3f' % (disc[0][2], bound), trigger=trig)
+        # ---- a connection made after the loss is a fresh version-4 handshake (no leftovers of the old session)
+        if disc and self.mode in ('polling', 'websocket'):
+            nreq, nws = len(w.server.reqs), len(w.server.wss)
+            tr = {'polling': ['polling'], 'websocket': ['websocket']}[self.mode]
+            c2 = w.call('connect', 'http://srv/?token=abc', transports=tr)
+            w.run()
+            urls = [r.url for r in w.server.reqs[nreq:]] + [x.url for x in w.server.wss[nws:]]
+            if not urls:
+                self.flag('reconnect_made_no_request', 'connect() after the loss made no request (done=%s exc=%r)' % (c2.done, c2.exc), trigger=trig)
+            else:
+                q = urllib.parse.parse_qs(urllib.parse.urlparse(urls[0]).query)
+                if 'sid' in q or q.get('EIO') != ['4'] or q.get('token') != ['abc'] or q.get('transport') != tr:
+                    self.flag('reconnect_not_fresh', 'connect() after the loss requested %r' % urls[0], trigger=trig)
+                for x in w.server.wss[nws:]:
+                    w.ws_decide(x, True)
+                w.run()
+                early = [f[3] for x in w.server.wss[nws:] for f in x.sent]
+                if early:
+                    self.flag('reconnect_not_fresh', 'the new WebSocket connection sent %r before receiving OPEN' % early, trigger=trig)
+            for pr in w.server.pending_reqs():
+                w.fail(pr)
+            for x in w.server.wss[nws:]:
+                w.ws_push(x, ('close',))
+            w.run_until(w.now + 7)
 
     def observation(self):
         w = self.world
